@@ -155,7 +155,20 @@ impl Read for SchedSource {
             if remaining == 0 {
                 s.ended = true;
                 if s.fault {
-                    return Err(io::Error::new(io::ErrorKind::Other, "fault"));
+                    // any non-Interrupted kind is a terminal failure; vary it per case so that code
+                    // treating one particular kind specially (UnexpectedEof, WouldBlock, …) is seen
+                    const KINDS: &[io::ErrorKind] = &[
+                        io::ErrorKind::Other,
+                        io::ErrorKind::UnexpectedEof,
+                        io::ErrorKind::BrokenPipe,
+                        io::ErrorKind::WouldBlock,
+                        io::ErrorKind::TimedOut,
+                        io::ErrorKind::InvalidData,
+                        io::ErrorKind::ConnectionReset,
+                        io::ErrorKind::WriteZero,
+                    ];
+                    let kind = KINDS[(s.data.len() + s.data.first().copied().unwrap_or(0) as usize) % KINDS.len()];
+                    return Err(io::Error::new(kind, "fault"));
                 }
             }
             return Ok(0);
